@@ -68,7 +68,9 @@ func (P) Rule() string {
 		"negative values, zero counts, null entries, empty/invalid regex, duplicate regex) interleaved with shaped connections created by the real " +
 		"Listener over a recording in-memory conn, responses (URL class, Range start, head length, optional fast bucket of capacity 1..16) and " +
 		"Conn.Write calls with random write sizes, followed by a goroutine leak check; plus concurrent-connection cases and wall-clock throttle " +
-		"measurements; distinct by hash of the op list; non-trivial when the case has at least one accepted configuration and at least one " +
+		"measurements; interleaved histories (a Write parked between two rounds of its loop while configurations are accepted or refused and connections " +
+		"are accepted; connections accepted while a configuration upload is stalled half-way); end-to-end cases (real martian.Proxy on the shaped " +
+		"listener over TCP, keep-alive sequences of matching / non-matching URLs, Range and multipart answers, bodies up to 12000 bytes); distinct by hash of the op list; non-trivial when the case has at least one accepted configuration and at least one " +
 		"write that triggered an action (halt, close or bandwidth change) or at least one rejected configuration followed by a shaped write"
 }
 
@@ -80,7 +82,7 @@ func (P) Nontrivial(ops []string, impl []string) bool {
 			acc = true
 		case strings.HasPrefix(l, "rejected"):
 			rej = true
-		case strings.HasPrefix(l, "w "):
+		case strings.HasPrefix(l, "w ") || strings.HasPrefix(l, "r "):
 			wr = true
 			if !strings.Contains(l, " ev=- ") {
 				act = true
@@ -399,6 +401,7 @@ func (e *ex) Close() {
 	}
 	if e.w != nil {
 		e.w.finish()
+		e.w = nil
 	}
 	waitLoops(e.expected())
 }
